@@ -155,6 +155,53 @@ def doc_of(spec, layout):
     return d
 
 
+def constructed_rule(kind, attrs):
+    """the rule a payload denotes, built by the constructor of its class (not decoded from a document)"""
+    from vakt.rules import string as rs, net as rn, inquiry as ri, operator as ro, list as rl, logic as rg
+    if kind == 'streq':
+        return rs.Equal(attrs['val'], ci=attrs['ci'])
+    if kind == 'pairs':
+        return rs.PairsEqual()
+    if kind == 'cidr':
+        return rn.CIDR(attrs['cidr'])
+    if kind == 'subjeq':
+        return ri.SubjectEqual()
+    if kind == 'acteq':
+        return ri.ActionEqual()
+    if kind == 'resin':
+        return ri.ResourceIn()
+    if kind == 'regex':
+        return rs.RegexMatch(attrs['regex']['pattern'])
+    if kind == 'eq':
+        return ro.Eq(attrs['val'])
+    if kind == 'in':
+        return rl.In(1, 'a')
+    if kind == 'and':
+        return rg.And(ro.Eq(1))
+    if kind == 'starts':
+        return rs.StartsWith('a', ci=False)
+    if kind == 'custom':
+        return Custom(attrs['x'])
+    if kind in ('subjmatch', 'actmatch', 'resmatch'):
+        cls = {'subjmatch': ri.SubjectMatch, 'actmatch': ri.ActionMatch, 'resmatch': ri.ResourceMatch}[kind]
+        return cls(attrs['attribute']) if attrs['attribute'] is not None else cls()
+    return None
+
+
+RULE_PROBES = ['10.1.1.1', '192.168.3.4', '8.8.8.8', 'x', 1, 'a', 'abc', 'max', 'Max', ['a', 'a'], ['a', 'b'], 'a.b', 'axb', 'get',
+               'xx', None, 'v', [1, 2], {'name': 'max'}]
+
+
+def rule_answers(rule, q):
+    out = []
+    for v in RULE_PROBES:
+        try:
+            out.append(bool(rule.satisfied(v, q)))
+        except Exception as e:
+            out.append('raise ' + type(e).__name__)
+    return out
+
+
 def representable(spec, layout):
     """can the policy be written in `layout` at all (by the eras of its rule classes and its type)"""
     if layout in (110, 111):
@@ -340,6 +387,21 @@ def run(ctx):
                         if polcase.policy_key(p) != polcase.policy_key(denoted):
                             problems.append('after %s policy %s reads back as %s, it denotes %s'
                                             % (hist, s['uid'], p.to_json()[:200], denoted.to_json()[:200]))
+                            break
+                        # every context rule answers like the rule its payload denotes, built by its constructor
+                        qp = Inquiry(action='get', subject={'name': 'max'}, resource='abc', context={})
+                        for name, kind, attrs in s['rules']:
+                            want_rule = constructed_rule(kind, attrs)
+                            if want_rule is None or name not in p.context:
+                                continue
+                            got, want = rule_answers(p.context[name], qp), rule_answers(want_rule, qp)
+                            out.count('context-rule-probed:' + kind)
+                            if got != want:
+                                i = next(j for j, (a, b) in enumerate(zip(got, want)) if a != b)
+                                problems.append('after %s the context rule %r (%s) of policy %s answers %r for %r, the rule it '
+                                                'denotes answers %r' % (hist, name, kind, s['uid'], got[i], RULE_PROBES[i], want[i]))
+                                break
+                        if problems:
                             break
                     if not problems and all(not any(k == 'custom-set' for _, k, _ in s['rules']) for s in specs):
                         q = Inquiry(action='get', subject='max', resource='r', context={'k': 'v', 'ip': '10.1.1.1', 'n': 1})
